@@ -52,6 +52,7 @@ def justified : List ((List Char × List Char × List Char × Nat) × String) :=
   (("generator/converter/type_resolver.rs".toList, "try_flatten_nested_union".toList, "unwrap".toList, 2), "guarded by a preceding is_some / len check in the same function"),
   (("generator/naming/identifiers.rs".toList, "<top>".toList, "unwrap".toList, 0), "static regex literals"),
   (("generator/naming/identifiers.rs".toList, "<top>".toList, "unwrap".toList, 1), "static regex literals"),
+  (("generator/converter/methods.rs".toList, "build_methods_from_eligible".toList, "zip_eq".toList, 0), "`method_names = derive_method_names(enum_name, &variant_names)` and `variant_names` is `eligible` mapped element by element: derive_method_names returns one name per input name (Naming model: deriveMethodNames preserves length), so both sides have the length of `eligible`"),
   (("generator/naming/identifiers.rs".toList, "next".toList, "unwrap".toList, 0), "iterator just stored in self.pending_*"),
   (("generator/naming/identifiers.rs".toList, "next".toList, "unwrap".toList, 1), "iterator just stored in self.pending_*"),
   (("generator/naming/inference.rs".toList, "try_from".toList, "unwrap".toList, 0), "guarded by is_i64()/is_f64() checks"),
